@@ -416,9 +416,20 @@ def rule_failure_values(report, prog, res, rule='C16-R6'):
     report.floor(rule, n, 5)
 
 
+def rule_tt4_dump(report, prog, rule='C16-R7'):
+    """Type 4 Tag dump(): folded against a file that answers every READ BINARY with 16 octets the dump ends by itself and never hands
+    READ BINARY an offset its P1 P2 cannot carry (which would be a struct.error instead of a tag command error)."""
+    from . import t4model
+    f = prog.func('nfc.tag.tt4.Type4Tag.NDEF._dump_ndef_data')
+    problems = t4model.dump_offsets(prog)
+    report.check(not problems, rule, key(f.qname, 'dump of an endless file ends and stays inside the offsets READ BINARY can carry'), f.loc(),
+                 '; '.join(problems[:2]), detail='addressable offsets end at %s' % (t4model.address_limit(prog)[0],))
+
+
 def run(report, prog, tier):
     res = Resolver(prog)
     rule_mapping(report, prog)
+    rule_tt4_dump(report, prog)
     rule_escape(report, prog, res, tier)
     rule_retry(report, prog)
     rule_activate(report, prog)
@@ -623,6 +634,8 @@ def activate_tt1""", 'C16-R4'),
             log.debug("invalid response %s", hexlify(data).decode())""", """        if len(data) > 16:
             log.debug("invalid response %s", hexlify(data).decode())""", 'C16-R'),
     ('tt3-block-data-length-test', 'nfc.tag.tt3', "        if len(data) != 1 + len(block_list) * 16:", "        if len(data) < 1:", 'C16-R'),
+    ('tt4-dump-unbounded', 'nfc.tag.tt4', "for offset in range(0, 0x10000, 16):", "for offset in itertools.count(0, 16):", 'C16-R7'),
+    ('tt4-dump-one-row-over', 'nfc.tag.tt4', "for offset in range(0, 0x10000, 16):", "for offset in range(0, 0x10010, 16):", 'C16-R7'),
     ('sector-select-first-packet-not-retried', 'nfc.tag.tt2', "            rsp = self.transceive(sector_select_1)", "            rsp = self.transceive(sector_select_1, retries=0)", 'C16-R3'),
 ]
 MUTANTS = [m for m in MUTANTS if m[4] != 'C16-NONE']
